@@ -395,6 +395,8 @@ func (w *Worker) assert(id string, c *Term, msg string) {
 		// folded to false on this path: a model of the path condition is the counterexample
 		r = w.check()
 		if r == Unsat {
+			// the solver refuted the path itself: the obligation is discharged
+			w.st.Discharged++
 			panic(pathEnd{"infeasible", "assert on infeasible path"})
 		}
 	}
